@@ -1050,7 +1050,9 @@ func (t *tScreen) TPuts(s string) {
 
 func (t *tScreen) Show() {
 	t.Lock()
-	if !t.fini {
+	// (a suspended screen has given the terminal away: nothing is drawn
+	// until Resume)
+	if !t.fini && t.running {
 		t.resize()
 		t.draw()
 	}
@@ -2036,7 +2038,7 @@ func (t *tScreen) Sync() {
 	t.Lock()
 	t.cx = -1
 	t.cy = -1
-	if !t.fini {
+	if !t.fini && t.running {
 		t.resize()
 		t.clear = true
 		t.cells.Invalidate()
@@ -2276,7 +2278,9 @@ func (t *tScreen) closeTty() {
 // Beep emits a beep to the terminal.
 func (t *tScreen) Beep() error {
 	t.Lock()
-	t.writeString(string(byte(7)))
+	if t.running {
+		t.writeString(string(byte(7)))
+	}
 	t.Unlock()
 	return nil
 }
@@ -2314,7 +2318,7 @@ func (t *tScreen) SetTitle(title string) {
 func (t *tScreen) SetClipboard(data []byte) {
 	// Post binary data to the system clipboard.  It might be UTF-8, it might not be.
 	t.Lock()
-	if t.setClipboard != "" {
+	if t.setClipboard != "" && t.running {
 		encoded := base64.StdEncoding.EncodeToString(data)
 		t.TPuts(t.ti.TParm(t.setClipboard, encoded))
 	}
@@ -2323,7 +2327,7 @@ func (t *tScreen) SetClipboard(data []byte) {
 
 func (t *tScreen) GetClipboard() {
 	t.Lock()
-	if t.setClipboard != "" {
+	if t.setClipboard != "" && t.running {
 		t.TPuts(t.ti.TParm(t.setClipboard, "?"))
 	}
 	t.Unlock()
